@@ -178,11 +178,19 @@ def run(ctx):
     ctx.traces += len(hists)
     ctx.note('histories_replayed', len(hists))
     ctx.note('calls_replayed', steps)
-    fresh_interpreter(ctx, finals[:24] if quick else finals[:200])
+    # every text serialisation of every pool object is also compared with a fresh interpreter under another hash seed (not only when a
+    # history happens to end in one): the order of what is written may not come from a set or from string hashes
+    dedicated = []
+    for j, (op, o) in enumerate([(op, o) for op in ('serialize_ds9', 'serialize_crtf', 'write', 'parse') for o in purity.CATS]):
+        for ps in ((0, 1) if quick else (0, 1, 2, 3)):
+            last = replay(ctx, [(op, o)], ctx.seed * 100003 + 7000 + ps)
+            if last is not None:
+                dedicated.append(last)
+    fresh_interpreter(ctx, (finals[:24] if quick else finals[:200]) + dedicated)
     # (C) independent random histories validated by Trace_Purity
     rnd = random.Random(ctx.seed * 7 + 13)
     ops = ['contains', 'to_mask', 'area', 'bounding_box', 'convert', 'rotate', 'copy', 'combine', 'as_artist', 'serialize_ds9',
-           'serialize_crtf', 'serialize_fits', 'write', 'parse', 'slice', 'mask_apply', 'parse_foreign']
+           'serialize_crtf', 'serialize_fits', 'write', 'parse', 'slice', 'mask_apply', 'parse_foreign', 'reread']
     traces = []
     for t in range(25 if quick else 300):
         hist = []
@@ -218,5 +226,9 @@ def run(ctx):
     ctx.note('traces_validated', n)
     tlc.cleanup(res.workdir)
     tlc.cleanup(wd)
+    import glob
+    import shutil
+    for d in glob.glob(os.path.join(tlc.WORK, 'c13shared_*')):
+        shutil.rmtree(d, ignore_errors=True)
     ctx.assumptions += ['fingerprints cover region parameters bit-for-bit, meta/visual, list membership, coordinate and image arrays, the WCS header and '
                         'all module-level containers of regions.*; objects outside the pool are not observed']
